@@ -207,6 +207,8 @@ class Frame:
         self.prefix = f"{depth}:"
         self.name = name or getattr(func, "name", "<lambda>")
         self.selfname = None
+        self.self_key = "self"   # state prefix of the object whose method runs: "self" for the analysed object, "inst.<n>" for an instance created during the run
+        self.instance = None     # the ("inst", n, ClassInfo) value when a method of such an instance runs
         self.caller = None
         self.enclosing = ()   # frames of the lexically enclosing functions that are still executing, innermost first
         if is_method and isinstance(func, FUNC_TYPES) and func.args.args and receiver is not None:
@@ -228,6 +230,8 @@ class Frame:
             for e in chain:
                 if e.selfname is not None and e.selfname not in own:
                     self.selfname = e.selfname
+                    self.self_key = e.self_key
+                    self.instance = e.instance
                     break
                 own = own | own_names(e.func)
 
@@ -333,14 +337,27 @@ class Interp:
         if isinstance(e, ast.Constant):
             return [val(d.constant(e), st)]
         if isinstance(e, ast.Name):
+            if fr.instance is not None and e.id == fr.selfname:
+                return [val(fr.instance, st)]
             key = fr.local(e.id)
             if st.has(key):
                 return [val(st.get(key), st)]
             v = d.load_attr([e.id], st, fr)
+            if v is None:
+                deep = getattr(d, "load_attr_interp", None)
+                if deep is not None:
+                    rs = deep(self, [e.id], st, fr)
+                    if rs is not None:
+                        return rs
             return [val(TOP if v is None else v, st)]
         if isinstance(e, ast.Attribute):
             ch = attr_chain(e)
             if ch:
+                deep = getattr(d, "load_attr_interp", None)
+                if deep is not None:
+                    rs = deep(self, ch, st, fr)
+                    if rs is not None:
+                        return rs
                 multi = getattr(d, "load_attr_multi", None)
                 if multi is not None:
                     rs = multi(ch, st, fr)
@@ -350,7 +367,7 @@ class Interp:
                 if v is not None:
                     return [val(v, st)]
                 if fr.selfname and ch[0] == fr.selfname:
-                    key = "self." + ".".join(ch[1:])
+                    key = fr.self_key + "." + ".".join(ch[1:])
                     if st.has(key):
                         return [val(st.get(key), st)]
                     return [val(TOP, st)]
@@ -424,13 +441,29 @@ class Interp:
             return out
         if isinstance(e, ast.Dict):
             out = []
-            exact = getattr(d, "exact_dicts", False) and all(isinstance(k, ast.Constant) for k in e.keys)
+            exact = getattr(d, "exact_dicts", False) and all(k is not None for k in e.keys)
+            keyer = getattr(d, "_dkey", None)
             for r in self.eval_list([x for x in list(e.keys) + list(e.values) if x is not None], st, fr):
                 if r.kind == "exc":
                     out.append(r)
-                elif exact:
-                    vals_ = r.value[len(e.keys):]
-                    out.append(val(("kwdict", tuple((k.value, v) for k, v in zip(e.keys, vals_))), r.state))
+                    continue
+                items = None
+                if exact:
+                    keys_, vals_ = r.value[: len(e.keys)], r.value[len(e.keys):]
+                    items = []
+                    for kn, kv, v in zip(e.keys, keys_, vals_):
+                        if isinstance(kn, ast.Constant):
+                            ok_, key_ = True, kn.value
+                        elif keyer is not None:
+                            ok_, key_ = keyer(kv)
+                        else:
+                            ok_, key_ = False, None
+                        if not ok_:
+                            items = None
+                            break
+                        items = [(k_, v_) for k_, v_ in items if k_ != key_] + [(key_, v)]
+                if items is not None:
+                    out.append(val(("kwdict", tuple(items)), r.state))
                 else:
                     out.append(val(EMPTY if not e.keys else NONEMPTY, r.state))
             return out
@@ -836,7 +869,7 @@ class Interp:
             return fr.local(e.id)
         ch = attr_chain(e)
         if ch and fr.selfname and ch[0] == fr.selfname and len(ch) >= 2:
-            return "self." + ".".join(ch[1:])
+            return fr.self_key + "." + ".".join(ch[1:])
         return None
 
     def refine(self, test, st, fr, truth):
@@ -933,7 +966,7 @@ class Interp:
             ch = attr_chain(target)
             if ch and fr.selfname and ch[0] == fr.selfname:
                 hook = getattr(self.domain, "store_attr", None)
-                key = "self." + ".".join(ch[1:])
+                key = fr.self_key + "." + ".".join(ch[1:])
                 if hook is not None:
                     r = hook(key, value, st, fr)
                     if r is not None:
@@ -1333,9 +1366,35 @@ class Interp:
 
     def _with(self, s, st, fr):
         d = self.domain
+        if len(s.items) > 1 and getattr(d, "with_object", None) is not None:
+            # `with a, b:` is `with a: with b:`
+            inner = ast.copy_location(ast.With(items=s.items[1:], body=s.body, type_comment=None), s)
+            outer = ast.copy_location(ast.With(items=s.items[:1], body=[inner], type_comment=None), s)
+            for n_ in (inner, outer):
+                n_._parent = getattr(s, "_parent", None)
+                n_._module = getattr(s, "_module", None)
+                n_._func = getattr(s, "_func", None)
+                n_._class = getattr(s, "_class", None)
+            return self._with(outer, st, fr)
         rewritten = self._contextmanager_rewrite(s, st, fr) if getattr(d, "inline_contextmanagers", False) else None
         if rewritten is not None:
             return self.exec_block(rewritten, [st], fr)
+        if len(s.items) == 1 and getattr(d, "with_object", None) is not None:
+            out = []
+            rest = []
+            for r in self.eval(s.items[0].context_expr, st, fr):
+                if r.kind == "exc":
+                    out.append(("raise", r.value, r.state))
+                    continue
+                got = d.with_object(self, s, s.items[0], r.value, r.state, fr)
+                if got is None:
+                    rest.append(r)
+                else:
+                    out.extend(got)
+            if not rest:
+                return self._dd(out)
+            if out:
+                raise Undecided("a with-statement's context manager is an object of the model on some paths only")
         out = []
         entered = [st]
         for item in s.items:
@@ -1375,7 +1434,7 @@ class Interp:
         return self._dd(out)
 
     # ------------------------------------------------------------------ calls
-    def inline(self, func, argvals, st, caller, receiver=None, name=None, is_method=True, closure_env=()):
+    def inline(self, func, argvals, st, caller, receiver=None, name=None, is_method=True, closure_env=(), self_value=None):
         """Execute ``func`` with params bound to abstract values; -> list of Result.
 
         argvals: dict param name -> abstract value (missing params -> TOP or
@@ -1388,6 +1447,11 @@ class Interp:
         fr = Frame(func, depth, receiver if receiver is not None else (caller.receiver if caller else None), name,
                    is_method=is_method and getattr(func, "_class", None) is not None)
         fr.caller = caller
+        if self_value is not None and isinstance(func, FUNC_TYPES) and func.args.args:
+            # a method of an object created during the run: `self.x` lives under inst.<n>.x
+            fr.selfname = func.args.args[0].arg
+            fr.self_key = f"inst.{self_value[1]}"
+            fr.instance = self_value
         fr.bind_enclosing(caller)
         # The callee sees only the global part of the state (event monitors, self.*) and, for a nested
         # function, the locals of its lexically enclosing frames (which it may also rebind or mutate);
@@ -1416,7 +1480,7 @@ class Interp:
                 env_locals.append((name_, v_, None))
         for name_, v_, _ in env_locals:
             entry = entry.set(fr.local(name_), v_)
-        key = (id(func), entry, tuple(sorted((k, repr(v)) for k, v in argvals.items())))
+        key = (id(func), entry, tuple(sorted((k, repr(v)) for k, v in argvals.items())), fr.self_key)
         if key in self.in_progress:
             return [Result(r.kind, r.value, State(r.state.items | caller_locals, r.state.log)) for r in self.summaries.get(key, [])]
         cached = self.round_cache.get(key)
@@ -1542,7 +1606,7 @@ class Interp:
                     return f, None, False
         return None
 
-    def call_function(self, f, call, st, fr, receiver=None, bind_self=True, closure_env=()):
+    def call_function(self, f, call, st, fr, receiver=None, bind_self=True, closure_env=(), self_value=None):
         """Evaluate the arguments of ``call`` and inline ``f`` with them bound to its parameters."""
         exprs = [a.value if isinstance(a, ast.Starred) else a for a in call.args] + [k.value for k in call.keywords]
         params = [p.arg for p in f.args.posonlyargs + f.args.args]
@@ -1596,7 +1660,7 @@ class Interp:
             for k in call.keywords:
                 if k.arg is not None and isinstance(k.value, ast.Name):
                     back[k.arg] = fr.local(k.value.id)
-            for rr in self.inline(f, argvals, r.state, fr, receiver=receiver, is_method=bind_self, closure_env=closure_env):
+            for rr in self.inline(f, argvals, r.state, fr, receiver=receiver, is_method=bind_self, closure_env=closure_env, self_value=self_value):
                 s2 = rr.state
                 if rr.kind == "val" and isinstance(rr.value, tuple) and len(rr.value) == 3 and rr.value[0] == "func" and back and getattr(self.domain, "list_outparams", False):
                     # the closure captured a parameter that aliases one of our variables (a list to be filled, ...)
@@ -1621,7 +1685,11 @@ class Interp:
             v = st.get(fr.local(call.func.id))
             if isinstance(v, tuple) and len(v) == 3 and v[0] == "func":
                 env = v[2]
-        return self.call_function(f, call, st, fr, receiver=receiver, bind_self=bind_self, closure_env=env)
+        self_value = None
+        ch = attr_chain(call.func)
+        if fr.instance is not None and bind_self and ch and len(ch) == 2 and ch[0] in (fr.selfname, "super()"):
+            self_value = fr.instance   # self.m() / super().m() inside a method of an instance: the same instance
+        return self.call_function(f, call, st, fr, receiver=receiver, bind_self=bind_self, closure_env=env, self_value=self_value)
 
     def analyze(self, func, argvals, st, receiver=None, name=None, max_rounds=12):
         """Top-level entry: iterate until callee summaries are stable."""
